@@ -99,7 +99,7 @@ Consume ==
             f == StepFails(r, u, post)
             d == DriftOf(r, u, post)
         IN /\ bad' = IF f = <<>> THEN bad ELSE Append(bad, [i |-> l, why |-> f])
-           /\ drift' = IF d = <<>> THEN drift ELSE Append(drift, l)
+           /\ drift' = IF d = <<>> THEN drift ELSE Append(drift, [i |-> l, why |-> d])
            \* re-synchronise on the observed state
            /\ st' = post /\ segDone' = r.segDone /\ busy' = r.busy /\ shadowable' = r.shadowable
            /\ walkerSeg' = r.walker.cur /\ walkerWorking' = r.walker.working /\ outDone' = r.outDone /\ storesDone' = r.storesDone
